@@ -3,7 +3,7 @@
    deterministic function of the key (jax.random, trusted, not modelled) and (ii) L is the Cholesky
    factor (checked on every correspondence case by the executable predicate is_chol). *)
 From mathcomp Require Import all_ssreflect all_algebra.
-From GT Require Import Tensor Wick Sample C19_proofs.
+From GT Require Import Tensor Wick Sample C19_proofs SPD Chol.
 Import GRing.Theory.
 Local Open Scope ring_scope.
 
@@ -25,3 +25,13 @@ Theorem C19_sample_moments_partial (F : realFieldType) D (mu : vec F) (L S : mat
   /\ gE D vzero mid [:: rowf L mu i; rowf L mu j] - gE D vzero mid [:: rowf L mu i] * gE D vzero mid [:: rowf L mu j] = S i j.
 Proof. by move=> /is_cholP HS; exact: sample_moments. Qed.
 Print Assumptions C19_sample_moments_partial.
+
+(* the Cholesky factor used by sample() is unique: for a symmetric positive definite Sigma ANY lower triangular C with positive
+   diagonal and C C' = Sigma is L sqrt(D) of the (executable, rational) factorisation Sigma = L D L' -- so which LAPACK routine
+   produces it cannot matter, and the correspondence can check the implementation's factor exactly through C_jj^2 = d_j *)
+Theorem C19_cholesky_factor_unique (F : realFieldType) n (A C : mat F) : spd (mxf n n A) ->
+  (forall i j, (i < j)%N -> (j < n)%N -> C i j = 0) -> (forall i, (i < n)%N -> 0 < C i i) ->
+  mxf n n C *m (mxf n n C)^T = mxf n n A ->
+  forall i j, (i < n)%N -> (j < n)%N -> C i j = (ldl n A).1 i j * C j j /\ C j j * C j j = (ldl n A).2 j.
+Proof. exact: chol_unique. Qed.
+Print Assumptions C19_cholesky_factor_unique.
